@@ -39,6 +39,7 @@ type Case struct {
 	Remotes  [][2]string `json:"remotes,omitempty"`
 	Size     int         `json:"size,omitempty"` // packet size announced in the first reply (0: none)
 	Fail     string      `json:"fail,omitempty"` // make the login fail: "", "loginack-fail", "stall", "bad-key"
+	Reuse    string      `json:"reuse,omitempty"` // "plain" | "encrypted": the same LoginConfig object was used for such a login before
 }
 
 var h *hlib.H
@@ -191,7 +192,7 @@ func run(c Case) {
 			reps[0].Pkgs[len(reps[0].Pkgs)-2] = d
 		}
 	}
-	res := lg.Run(lg.Scenario{Encrypt: c.Encrypt, User: c.User, Password: c.Password, Host: c.Host, App: c.App, Remotes: c.Remotes, Replies: reps, Timeout: 30 * time.Second})
+	res := lg.Run(lg.Scenario{Encrypt: c.Encrypt, User: c.User, Password: c.Password, Host: c.Host, App: c.App, Remotes: c.Remotes, Replies: reps, Timeout: 30 * time.Second, Warmup: c.Reuse, ReuseConfig: c.Reuse != ""})
 	h.Eval(c.Password != "")
 	h.State()
 	h.Trace()
@@ -200,6 +201,9 @@ func run(c Case) {
 		flow = "encrypted"
 	}
 	cls := flow + "|" + pwClass(c)
+	if c.Reuse != "" {
+		cls += "|config-reused-after-" + c.Reuse + "-login"
+	}
 	js, _ := json.Marshal(c)
 	ctxt := string(js)
 	if strings.HasPrefix(res.Failure, "DIVERGED") {
@@ -476,6 +480,16 @@ func main() {
 				emit(Case{Encrypt: true, KeyBits: bits, Nonce: n, Password: rep("over-capacity-secret-", capacity-n+1), User: "sa", Host: "client-host", App: "my-application", Fail: "bad-key"})
 			}
 		}
+	}
+	// history: the LoginConfig object has been used for an earlier login (plain or encrypted) of the process
+	for _, reuse := range []string{"plain", "encrypted"} {
+		for _, pw := range []string{"a-long-secret-passphrase", "p", "", rep("pass-30-", 30)} {
+			for _, rem := range [][][2]string{nil, {{"REMOTE1", "remote-secret-number-one"}}} {
+				emit(Case{Encrypt: true, KeyBits: 1024, Nonce: 16, Password: pw, User: "sa", Host: "client-host", App: "my-application", Remotes: rem, Reuse: reuse})
+				h.Section("config-reuse", 1)
+			}
+		}
+		emit(Case{Encrypt: false, Password: "plain-password-in-its-slot", User: "sa", Host: "client-host", App: "my-application", Reuse: reuse})
 	}
 	// control: plain flow
 	for _, pw := range []string{"", "p", "plain-password-in-its-slot", rep("x", 30)} {
